@@ -396,7 +396,51 @@ def comp_level(spec, calls):
     return ack, sn
 
 
+def check_history(ctx):
+    """the answers of an Alarms object depend on its current configuration only: after any sequence of queries and
+    acknowledge_until / snooze_until / set_local_timezone calls, times and active equal those of a fresh Alarms
+    object configured the same way before its first query (moving an acknowledgement later never activates)"""
+    from datetime import datetime as dt, timezone as tzz
+    from icalendar import Alarm, Event
+    from icalendar.alarms import Alarms
+    U = tzz.utc
+    ev = Event()
+    ev.add('uid', 'h')
+    ev.start = dt(2024, 3, 5, 10, tzinfo=U)
+    ev.end = dt(2024, 3, 5, 12, tzinfo=U)
+    for minutes in (-30, -90):
+        a = Alarm()
+        a.TRIGGER = timedelta(minutes=minutes)
+        ev.add_component(a)
+    acks = [None, dt(2024, 3, 5, 8, tzinfo=U), dt(2024, 3, 5, 9, 10, tzinfo=U), dt(2024, 3, 5, 11, tzinfo=U)]
+    snoozes = [None, dt(2024, 3, 5, 9, 45, tzinfo=U), dt(2024, 3, 6, tzinfo=U)]
+
+    def observe(al):
+        return ([t.trigger for t in al.times], [t.trigger for t in al.active], [t.acknowledged for t in al.times])
+    for ack1 in acks:
+        for ack2 in acks:
+            for sn in snoozes:
+                ctx.evaluated(('history', str(ack1), str(ack2), str(sn)))
+                old = Alarms(ev)
+                old.acknowledge_until(ack1)
+                observe(old)                      # a query in between
+                old.acknowledge_until(ack2)
+                old.snooze_until(sn)
+                fresh = Alarms(ev)
+                fresh.acknowledge_until(ack2)
+                fresh.snooze_until(sn)
+                try:
+                    o, f = observe(old), observe(fresh)
+                except Exception as e:  # noqa: BLE001
+                    ctx.violation('history', {'ack1': str(ack1), 'ack2': str(ack2), 'snooze': str(sn)}, f'{type(e).__name__}: {e}')
+                    continue
+                if o != f:
+                    ctx.violation('history', {'ack1': str(ack1), 'ack2': str(ack2), 'snooze': str(sn)},
+                                  f'after acknowledge_until({ack1}); query; acknowledge_until({ack2}); snooze_until({sn}) the object answers {o}, a fresh object in the same configuration answers {f}')
+
+
 def oracle(ctx):
+    check_history(ctx)
     sh = shapes()
     light = not ctx.escalate and ctx.tier == 'quick'
     for prov in A.PROVIDERS:
